@@ -226,6 +226,7 @@ def digest(obj, kind):
     rows, data, holes = raw_rows(obj, kind)
     h = hashlib.sha1()
     h.update(kind.encode())
+    h.update((type(obj).__module__.split(".")[0] + "." + type(obj).__name__).encode())   # which engine's frame
     for r in rows:
         h.update(b"R%d" % len(r))
         for p in r:
